@@ -212,12 +212,19 @@ def run_call_cli(ck, insts, rnd, tier):
 
 
 def random_instance(rnd):
-    P = rnd.randint(1, 4)
+    # ploidies up to 6 (the likelihood cache is keyed by the genotype: keys must stay distinct for every ploidy) and,
+    # in a quarter of the instances, a haplotype set with a repeated row (alleles that differ only outside the SNVs:
+    # the model counts copies by allele index, as the exact posterior does)
+    P = rnd.choice([1, 2, 3, 4, 4, 5, 6])
+    dup = rnd.random() < 0.25
     while True:
         K = rnd.randint(2, 5)
         N = rnd.randint(1, 4)
         A = [rnd.randint(2, 3) for _ in range(N)]
         H = [[rnd.randrange(A[j]) for j in range(N)] for _ in range(K)]
+        if dup and K >= 3:
+            H[rnd.randrange(1, K)] = list(H[0])
+            break
         if len({tuple(h) for h in H}) == K:
             break
     w = [rnd.randint(1, 4) for _ in range(K)]          # support only: `call` removes zero-frequency alleles
